@@ -29,6 +29,16 @@ def main():
     import ufo2ft
     if not os.path.realpath(ufo2ft.__file__).startswith(os.path.realpath(repo) + "/Lib/"):
         raise SystemExit(f"ufo2ft imported from {ufo2ft.__file__}, expected {repo}/Lib")
+    # everything ufo2ft / the checks write to the temp dir lands in a per-run scratch directory
+    # outside /repo and /verif that is removed when the driver exits
+    import atexit
+    import shutil
+    import tempfile
+    base = tempfile.mkdtemp(prefix="ufo2ft-mc-run-")
+    os.environ["TMPDIR"] = base
+    tempfile.tempdir = base
+    pid = os.getpid()
+    atexit.register(lambda: os.getpid() == pid and shutil.rmtree(base, ignore_errors=True))
     if a.prop == "selftest":
         import selftest
         sys.exit(selftest.main())
